@@ -231,9 +231,10 @@ func (e *renv) phaseV1(r *Rng, s *sinks, d density, p, otherPath *ibctesting.Pat
 
 func (e *renv) scenarioV1(r *Rng, s *sinks, d density, p, otherPath *ibctesting.Path, ordered bool) {
 	datas := [][]byte{[]byte("data-" + r.Str("abcdefgh", 6)), []byte("fail-" + r.Str("abcdefgh", 4)), r.Bytes(1 + r.Intn(40))}
-	if r.Chance(0.5) {
+	if e.rawToggle = !e.rawToggle; e.rawToggle || r.Chance(0.3) {
 		// the receiving application answers with a non-standard (raw bytes) acknowledgement
-		datas[r.Intn(3)] = []byte("raw-" + r.Str("abcdefgh", 5))
+		// (every other scenario at least, starting with the first)
+		datas[2*r.Intn(2)] = []byte("raw-" + r.Str("abcdefgh", 5))
 	}
 	var ks []*sentV1
 	for i, data := range datas {
